@@ -25,7 +25,7 @@ RULE = ("plan = FeatureCollection with 0..6 features (0..15 thorough); per prope
         "metadata == other top-level members; write -> json.load gives valid JSON with the same members and features "
         "(null == absent == '' for strings); write -> read gives an equal frame and metadata. Non-trivial: ≥ 2 features with "
         "different key sets, or a null geometry, or an extra top-level member. Distinct = plan hash.")
-CASES = {"quick": 1200, "thorough": 4000}
+CASES = {"quick": 1200, "thorough": 8000}
 FUZZ_RUNS = {"thorough": 15000}     # coverage-guided leg, 8 processes (vlib/fuzz.py)
 
 KEYS = ["a", "b", "name", "é", "x y", 'q"k', "items", "self", "back\\slash", "nrow"]
